@@ -297,7 +297,8 @@ def driveC16 (args : List String) : String :=
                   else if c == 'r' then InterceptServer.decorateUnary (InterceptServer.dRewrite i) h
                   else h
         (h', i + 1)) (base, 0)
-      let tr : Option InterceptServer.UInt := if argVal t "t" == "p" then some InterceptServer.tPass else none
+      let tr : Option InterceptServer.UInt := if argVal t "t" == "p" then some InterceptServer.tPass
+        else if argVal t "t" == "r" then some InterceptServer.tRewrite else none
       let (evs, resp) := h rq tr
       let fm := strOfBytes info
       let showEv : InterceptServer.Ev → String
